@@ -24,11 +24,13 @@ pub struct Outcome {
     pub layers: Vec<Value>,
     pub distinct_outcomes: u64,
     pub extra: serde_json::Map<String, Value>,
+    /// problems of the machinery itself (exit 2, never a verdict)
+    pub machinery_errors: Vec<String>,
 }
 
 impl Outcome {
     pub fn new() -> Outcome {
-        Outcome { violations: vec![], states: 0, transitions: 0, validated: 0, samples: vec![], exhaustive: true, layers: vec![], distinct_outcomes: 0, extra: Default::default() }
+        Outcome { violations: vec![], states: 0, transitions: 0, validated: 0, samples: vec![], exhaustive: true, layers: vec![], distinct_outcomes: 0, extra: Default::default(), machinery_errors: vec![] }
     }
     pub fn absorb<H: HB>(&mut self, label: &str, ex: &Explorer<H>, t0: Instant) {
         let st = &ex.stats;
@@ -60,6 +62,7 @@ impl Outcome {
             "distinct_outcomes": outcomes,
             "documented_capacity_panics": st.documented_panics.load(AO::Relaxed),
             "merge_soundness_rechecks": st.merge_checked.load(AO::Relaxed),
+            "merge_soundness_mismatches": st.merge_mismatch.lock().unwrap().len(),
             "state_cap_hit": capped,
             "transition_graph_fingerprint": format!("{:016x}", st.graph_fp.load(AO::Relaxed)),
             "transitions_per_operation": opc,
@@ -70,6 +73,9 @@ impl Outcome {
             if !self.violations.iter().any(|x| x.signature() == c.signature()) {
                 self.violations.push(c);
             }
+        }
+        for mm in ex.stats.merge_mismatch.lock().unwrap().iter().take(3) {
+            self.machinery_errors.push(format!("merge soundness: {mm}"));
         }
     }
 }
@@ -91,7 +97,7 @@ pub fn base_cfg(prop: &'static str, k: u32, prios: &[i32], alphabet: u32) -> Cfg
         max_states: 30_000_000,
         threads: threads(),
         record_costs: false,
-        merge_check: false,
+        merge_check: std::env::var_os("PQMC_MERGE").is_some(),
     }
 }
 
@@ -254,12 +260,31 @@ pub fn run_history_property<H: HB>(prop: &'static str, tier: Tier) -> Outcome {
     let prios: Vec<i32> = (0..m as i32).collect();
     let mut cfg = base_cfg(prop, k, &prios, alpha);
     cfg.kinds = kinds.clone();
+    // merge soundness (thorough): successors recomputed from re-discovered copies must match
+    cfg.merge_check |= !q && matches!(prop, "C03" | "C12");
     if prop == "C01" || prop == "C02" {
         // the other kind is reachable through Convert; roots only of the property's kind
     }
     run_closed::<H>(&mut out, &format!("E1 closed ({k} items x {m} priorities)"), &cfg, &no_probes);
     if !out.violations.is_empty() {
         return out;
+    }
+    if prop == "C03" {
+        // cross-engine count: an independent naive explorer (public API keys, single thread, no hook)
+        // must find exactly as many unique states as E1 for the same alphabet and roots
+        let mut c2 = base_cfg(prop, if q { 3 } else { 4 }, &[0, 1], A_REACH | A_RETAIN | A_ITER_MUT);
+        c2.deep = false;
+        let t0 = Instant::now();
+        let ex = Explorer::<H>::new(&c2);
+        ex.run_closed();
+        let e1_states = ex.stats.states.load(AO::Relaxed);
+        out.absorb("E1 closed, reduced alphabet (for the cross-engine count)", &ex, t0);
+        let t0 = Instant::now();
+        let (naive_states, naive_trans) = crate::naive::count_states::<H>(&c2);
+        out.layers.push(json!({"layer": "cross-engine count: naive single-threaded explorer keyed by Debug/iter strings", "unique_states": naive_states, "transitions": naive_trans, "e1_unique_states": e1_states, "agree": naive_states == e1_states, "wall_s": t0.elapsed().as_secs_f64()}));
+        if naive_states != e1_states {
+            out.machinery_errors.push(format!("cross-engine count: E1 found {e1_states} unique states, the naive explorer {naive_states}"));
+        }
     }
     if matches!(prop, "C01" | "C02" | "C04") {
         // extreme values: same closure over {MIN, 0, MAX}
@@ -706,6 +731,7 @@ pub fn run_c14<H: HB>(tier: Tier) -> Outcome {
     let t0 = Instant::now();
     let mut cfg = base_cfg(prop, k, &prios, A_REACH | A_CLONE | A_CAPACITY);
     cfg.deep = false;
+    cfg.merge_check |= !q;
     let universe = cfg.universe();
     let mut ex = Explorer::<H>::new(&cfg);
     for p in crate::probes::all_probes::<H>(prop, &universe) {
@@ -781,6 +807,7 @@ pub fn run_c17<H: HB>(tier: Tier) -> Outcome {
     let prios: Vec<i32> = (0..m).collect();
     let mut cfg = base_cfg(prop, k, &prios, A_REACH | A_CAPACITY | A_CAPACITY_HUGE | A_CLEAR_DRAIN);
     cfg.deep = true;
+    cfg.merge_check |= !q;
     let universe = cfg.universe();
     let mk = |ex: &mut Explorer<H>| {
         for p in crate::probes::all_probes::<H>(prop, &universe) {
